@@ -27,6 +27,9 @@ struct Cfg {
     located: bool,
     extend_panics: bool,
     multi: bool,
+    /// chance that a leaf error repeats an earlier one verbatim (same message, same location):
+    /// recorded errors are a sequence, not a set
+    p_repeat: u32,
 }
 
 struct Ctx<'r> {
@@ -35,6 +38,8 @@ struct Ctx<'r> {
     frames: Vec<Vec<St>>,
     next_id: u32,
     left: usize,
+    /// leaf errors generated so far, for `p_repeat`
+    recent: Vec<ErrSpec>,
     /// frame index of the innermost enclosing catch_unwind boundary's block
     catch_frames: Vec<usize>,
 }
@@ -52,12 +57,20 @@ impl Ctx<'_> {
             let children = (0..k).map(|_| self.err(depth + 1)).collect();
             let at = if self.cfg.located && self.rng.pct(40) { Some(self.seg()) } else { None };
             ErrSpec::Bundle(children, at)
-        } else if self.cfg.located && r < 50 {
-            let id = self.id();
-            let seg = self.seg();
-            ErrSpec::Located(id, seg)
+        } else if self.cfg.p_repeat > 0 && !self.recent.is_empty() && self.rng.pct(self.cfg.p_repeat) {
+            // mostly the one just before (adjacent equal entries), sometimes an older one
+            let i = if self.rng.pct(60) { self.recent.len() - 1 } else { self.rng.below(self.recent.len()) };
+            self.recent[i].clone()
         } else {
-            ErrSpec::Single(self.id())
+            let e = if self.cfg.located && r < 50 {
+                let id = self.id();
+                let seg = self.seg();
+                ErrSpec::Located(id, seg)
+            } else {
+                ErrSpec::Single(self.id())
+            };
+            self.recent.push(e.clone());
+            e
         }
     }
 
@@ -278,9 +291,10 @@ fn thread_program(rng: &mut Rng, multi: bool, id_base: u32) -> Vec<Stmt> {
         located: rng.pct(60),
         extend_panics: !fault_free && rng.pct(60),
         multi,
+        p_repeat: *rng.pick(&[0u32, 0, 0, 40]),
     };
     let left = cfg.max_stmts;
-    let mut ctx = Ctx { rng, cfg, frames: Vec::new(), next_id: id_base, left, catch_frames: Vec::new() };
+    let mut ctx = Ctx { rng, cfg, frames: Vec::new(), next_id: id_base, left, recent: Vec::new(), catch_frames: Vec::new() };
     let (b, _) = ctx.block(0, true);
     b
 }
